@@ -410,6 +410,27 @@ static void *proxy_main(void *arg) {
 static void proxy_free(proxy_t *p) { int d, i; for (d = 0; d < 2; d++) for (i = 0; i < 32; i++) free(p->copy[d][i]); }
 
 /* ------------------------------------------------------------------ endpoints */
+
+/* ------------------------------------------------------------------ short writes
+ * send() of the C library, interposed for the endpoint threads that ask for it: delivers only the first few bytes
+ * (as a socket with a full send buffer / SO_SNDTIMEO does) and leaves a stale value in errno next to the positive
+ * count (errno is unspecified after a successful call).  tls_record_send must go on with the rest. */
+#include <sys/syscall.h>
+#include <unistd.h>
+#include <errno.h>
+static __thread int short_send_mode;            /* 0 off; 1 stale errno = EPIPE; 2 stale errno = EAGAIN */
+static __thread uint64_t short_send_state;
+static __thread unsigned long short_send_count;
+ssize_t send(int fd, const void *buf, size_t n, int flags) {
+	size_t k = n; ssize_t r;
+	if (short_send_mode && n > 1) {
+		short_send_state = short_send_state * 6364136223846793005ULL + 1442695040888963407ULL;
+		k = 1 + (size_t)((short_send_state >> 33) % ((short_send_state >> 20) % 4 == 0 ? n : (n < 7 ? n : 7)));
+	}
+	r = syscall(SYS_sendto, fd, buf, k, flags, NULL, 0);
+	if (short_send_mode && r > 0) { if (k < n) short_send_count++; errno = short_send_mode == 1 ? EPIPE : EAGAIN; }
+	return r;
+}
 #define PMAXMSG 4
 #define PMAXCALLS (PMAXMSG + 2)
 #define PM_IS_APP(m) ((m).type == 0 || (m).type == 23)
@@ -419,6 +440,7 @@ typedef struct {
 	TLS_CTX ctx; TLS_CONNECT *conn;          /* conn is an exactly sized heap block */
 	int sock; int hs_ret; uint64_t seed; time_t clock;
 	view_t view;
+	int short_send; unsigned long short_sends;   /* short_send_mode of this endpoint's thread; number of short writes it met */
 	int post;                                /* after a successful handshake: send the planned application messages, then receive */
 	pmsg_t plan[PMAXMSG]; int nplan; int crafted;   /* nplan == 0: two 16-byte messages through tls_send / tls13_send */
 	int post_send_ret, post_recv_ret; size_t post_recv_len;   /* first send / first receive */
@@ -471,6 +493,7 @@ static uint8_t pmsg_byte(int is_client, int k, size_t i) { return (uint8_t)((is_
 static void *endpoint_main(void *arg) {
 	endpoint_t *e = arg;
 	ent_seed(e->seed, -1); ent_clock(e->clock);
+	short_send_mode = e->short_send; short_send_state = e->seed * 77 + 1; short_send_count = 0;
 	cur_view = &e->view; cur_empty_cert = e->empty_cert;
 	cur_sig_mode = e->sig_mode; cur_sigs = e->sigs;
 	if (e->forge_cert) {
@@ -526,6 +549,7 @@ static void *endpoint_main(void *arg) {
 		}
 		free(buf); free(exp);
 	}
+	e->short_sends = short_send_count; short_send_mode = 0;
 	if (e->hs_ret != 1 || e->post) shutdown(e->sock, SHUT_RDWR);   /* a finished endpoint hangs up */
 	return NULL;
 }
